@@ -242,6 +242,9 @@ namespace bloch::runtime {
             bool initialized = false;
         };
         std::vector<std::unordered_map<std::string, VarEntry>> m_env;
+        // Index of the first scope of the function/method/constructor body being executed.
+        // Name lookup stops there: a callee never sees (or assigns) its caller's locals.
+        size_t m_frameBase = 0;
         Value m_returnValue;
         bool m_hasReturn = false;
         std::unordered_map<const Expression*, std::vector<int>> m_measurements;
